@@ -58,6 +58,9 @@ class DownAsm:
     def __init__(self):
         self.cur = {}     # uid -> (seq, {frag: body}, first_time)
 
+    def reset(self, uid):
+        self.cur.pop(uid, None)
+
     def feed(self, uid, h, body, t):
         """Returns the inflated frame when this answer completes a packet, else None."""
         if not body:
@@ -65,6 +68,9 @@ class DownAsm:
         st = self.cur.get(uid)
         if st is None or st[0] != h["dn_seq"]:
             st = (h["dn_seq"], {}, t)
+            self.cur[uid] = st
+        if h["dn_frag"] == 0 and st[1].get(0, body) != body:
+            st = (h["dn_seq"], {}, t)          # a new packet that happens to reuse the sequence number
             self.cur[uid] = st
         st[1].setdefault(h["dn_frag"], body)
         if h["last"]:
@@ -215,6 +221,7 @@ def mon_c03(k, domain, password, up_frames, wildcard=False, srv="srv"):
                     authed[uid] = False
                     rawauthed[uid] = False
                     vack_in_interval.add(uid)
+                    asm.reset(uid)
                     st["c03_vacks"] += 1
                 continue
             uid = named_slot(text)
@@ -360,13 +367,23 @@ def mon_c04(k, domain, check_ip, offered, up_frames, wildcard=False, srv="srv"):
             return
         kinds.add(("delivered", "raw" if ev[3]["data"][:3] == proto.RAW_MAGIC else "dns", "c2c" if frame in up_frames else "tun"))
 
+    def permitted(s, ip):
+        return (not check_ip) or s["owner"] == ip
+
     for ev in k.log:
         kind, who, kw = ev[1], ev[2], ev[3]
         if who != srv:
             continue
         if kind == "recv":
             d = kw["data"]
+            now_s = sec(ev[0])
             if d[:3] == proto.RAW_MAGIC:
+                # raw data / ping / login may be accepted without any reply: "possibly accepted" keeps the
+                # expiry rule from firing on a session that is in fact alive
+                if len(d) >= 4:
+                    s = slot.get(d[3] & 0x0F)
+                    if s is not None:
+                        s["last_maybe_s"] = max(s["last_maybe_s"], now_s)
                 continue
             try:
                 m = proto.parse_msg(d)
@@ -378,11 +395,20 @@ def mon_c04(k, domain, check_ip, offered, up_frames, wildcard=False, srv="srv"):
             if not text:
                 continue
             uid = named_slot(text)
-            pending[(kw["src"], m.id, tuple(m.qd[0][0]))] = (uid, sec(ev[0]), kw["src"][0], text[:1].lower())
+            s = slot.get(uid)
+            silent = None
+            if s is not None:
+                silent = now_s - max(s["last_ok_s"], s["last_maybe_s"])
+                c0 = text[:1].lower()
+                if (c0 in b"lp" or text[:1] in HEX) and permitted(s, kw["src"][0]):
+                    # may be accepted and held back without an answer (lazy mode)
+                    s["last_maybe_s"] = max(s["last_maybe_s"], now_s)
+            pending[(kw["src"], m.id, tuple(m.qd[0][0]))] = (uid, now_s, kw["src"][0], silent)
             continue
         if kind != "send":
             continue
         d = kw["data"]
+        now_s = sec(ev[0])
         if d[:3] == proto.RAW_MAGIC:
             if len(d) >= 4:
                 cmd, uid = d[3] & 0xF0, d[3] & 0x0F
@@ -391,10 +417,11 @@ def mon_c04(k, domain, check_ip, offered, up_frames, wildcard=False, srv="srv"):
                     # the sanctioned rebind: a correct raw login moves the session to the sender's address
                     if s["owner"] != kw["dst"][0]:
                         st["c04_rebinds"] += 1
+                        kinds.add(("rebind-by-raw-login",))
                     s["owner"] = kw["dst"][0]
-                    s["last_ok_s"] = sec(ev[0])
+                    s["last_ok_s"] = max(s["last_ok_s"], now_s)
                 elif cmd == proto.RAW_PING and s is not None:
-                    s["last_ok_s"] = sec(ev[0])
+                    s["last_ok_s"] = max(s["last_ok_s"], now_s)
                 elif cmd == proto.RAW_DATA:
                     try:
                         fr = zlib.decompress(d[4:])
@@ -416,13 +443,12 @@ def mon_c04(k, domain, check_ip, offered, up_frames, wildcard=False, srv="srv"):
             p = proto.extract_payload(m)
         except (proto.Undecodable, proto.ParseError, IndexError, struct.error):
             continue
-        pk = (kw["dst"], m.id, tuple(m.qd[0][0]))
-        q = pending.pop(pk, None)
+        q = pending.pop((kw["dst"], m.id, tuple(m.qd[0][0])), None)
         c = text[:1].lower()
-        now_s = sec(ev[0])
         if c == b"v":
             if p[:4] == b"VACK" and len(p) >= 9:
                 uid = p[8]
+                asm.reset(uid)
                 st["c04_vacks"] += 1
                 old = slot.get(uid)
                 if old is not None:
@@ -434,64 +460,50 @@ def mon_c04(k, domain, check_ip, offered, up_frames, wildcard=False, srv="srv"):
                     else:
                         st["c04_slot_reuses"] += 1
                         kinds.add(("slot-reused", "gap>60" if gap > 60 else "gap=60"))
-                slot[uid] = {"owner": kw["dst"][0], "login_t": None, "tun_ip": None, "last_ok_s": now_s, "vack_t": ev[0]}
+                slot[uid] = {"owner": kw["dst"][0], "login_t": None, "tun_ip": None, "last_ok_s": now_s, "last_maybe_s": now_s,
+                             "vack_t": ev[0]}
             continue
         uid = named_slot(text)
         s = slot.get(uid)
-        refused = p in (b"BADIP",)
-        if s is None:
+        if s is None or q is None:
+            # q is None: answer to a remembered duplicate / from the answer cache - carries no new acceptance
             continue
-        if q is None:
-            # answer to a remembered duplicate / from the cache: carries no new acceptance
-            continue
-        q_uid, q_s, q_ip, q_c = q
-        accepted = False
+        q_uid, q_s, q_ip, silent = q
+        is_pd = c == b"p" or text[:1] in HEX
+        served = False
         if c == b"l":
-            accepted = p not in (b"BADIP", b"BADLEN")
+            served = p not in (b"BADIP", b"BADLEN")
             if LOGIN_OK.match(p):
                 s["login_t"] = ev[0]
                 s["tun_ip"] = p.split(b"-")[1].decode()
-        elif c == b"p" or text[:1] in HEX:
-            accepted = len(p) >= 2 and not refused and p != b"x"
-            if accepted:
+        elif is_pd:
+            served = len(p) >= 2 and p not in (b"BADIP", b"x")
+            if served:
                 h = proto.parse_down_header(p)
                 fr = asm.feed(uid, h, p[2:], ev[0])
                 if fr is not None and (fr in offered or fr in up_frames):
                     delivery(uid, kw["dst"][0], fr, ev)
         elif c in b"isonr":
-            accepted_cmd = p not in (b"BADIP", b"BADLEN")
-            # these do not refresh liveness, but acceptance is still subject to source and expiry rules
-            if accepted_cmd:
-                silent = q_s - s["last_ok_s"]
-                if silent >= 62:
-                    bad("C04:expired-session-served", "%s request naming slot %d was served %d s after the slot's last accepted message"
-                        % (c.decode().upper(), uid, silent), ev, slot=uid)
-                if check_ip and q_ip != s["owner"]:
-                    bad("C04:foreign-source-served", "%s request naming slot %d (bound to %s) from %s was served with %r"
-                        % (c.decode().upper(), uid, s["owner"], q_ip, p[:12]), ev, slot=uid)
-            elif p == b"BADIP":
-                if q_s - s["last_ok_s"] >= 61:
-                    st["c04_expired_requests_refused"] += 1
-                    kinds.add(("expired-refused", c.decode()))
-                elif check_ip and q_ip != s["owner"]:
-                    st["c04_foreign_requests_refused"] += 1
-                    kinds.add(("foreign-refused", c.decode()))
+            served = p not in (b"BADIP", b"BADLEN")
+        else:
             continue
-        if accepted:
-            silent = q_s - s["last_ok_s"]
-            if silent >= 62:
-                bad("C04:expired-session-served", "%s naming slot %d was accepted %d s after the slot's last accepted message"
-                    % ("login" if c == b"l" else "ping/data", uid, silent), ev, slot=uid)
-            if check_ip and q_ip != s["owner"]:
-                bad("C04:foreign-source-served", "%s naming slot %d (bound to %s) from %s was accepted"
-                    % ("login" if c == b"l" else "ping/data", uid, s["owner"], q_ip), ev, slot=uid)
-            s["last_ok_s"] = max(s["last_ok_s"], q_s)
-        elif refused:
-            if q_s - s["last_ok_s"] >= 61:
+        what = "login" if c == b"l" else ("ping/data" if is_pd else c.decode().upper() + " request")
+        if served:
+            if silent is not None and silent >= 62:
+                bad("C04:expired-session-served", "%s naming slot %d was served %d s after the slot's last (possibly) accepted message"
+                    % (what, uid, silent), ev, slot=uid)
+            elif check_ip and q_ip != s["owner"]:
+                bad("C04:foreign-source-served", "%s naming slot %d (bound to %s) from %s was served with %r"
+                    % (what, uid, s["owner"], q_ip, p[:12]), ev, slot=uid)
+            else:
+                kinds.add(("served", "l" if c == b"l" else "pd" if is_pd else c.decode()))
+            if c == b"l" or is_pd:
+                s["last_ok_s"] = max(s["last_ok_s"], q_s)      # these refresh the session's liveness
+        elif p == b"BADIP":
+            if silent is not None and silent >= 61:
                 st["c04_expired_requests_refused"] += 1
-                kinds.add(("expired-refused", "pd" if c != b"l" else "l"))
+                kinds.add(("expired-refused", "l" if c == b"l" else "pd" if is_pd else c.decode()))
             elif check_ip and q_ip != s["owner"]:
                 st["c04_foreign_requests_refused"] += 1
-                kinds.add(("foreign-refused", "pd" if c != b"l" else "l"))
-    # frames for addresses that must not be served and were indeed never delivered
+                kinds.add(("foreign-refused", "l" if c == b"l" else "pd" if is_pd else c.decode()))
     return viol, st, kinds
